@@ -344,3 +344,31 @@ def sym_values(max_len: int = 200):
     def resolve(state, e: ast.AST) -> ast.AST:
         return _sub(e, _vals(state[2]))
     return upd, resolve
+
+
+def dnf(f, limit: int = 64) -> list[list[tuple[bool, str]]]:
+    """disjunctive normal form: a list of conjunctions of literals (truth, atom text); at most `limit`
+    disjuncts (AnalysisError beyond - a path condition that large is not one a rule should split)"""
+    from .core import AnalysisError
+
+    def go(g, pos: bool) -> list[list[tuple[bool, str]]]:
+        if g[0] == 'const':
+            return [[]] if g[1] == pos else []
+        if g[0] == 'atom':
+            return [[(pos, g[1])]]
+        if g[0] == 'not':
+            return go(g[1], not pos)
+        kids = [go(x, pos) for x in g[1:]]
+        conj = (g[0] == 'and') == pos
+        if not conj:
+            out = [c for k in kids for c in k]
+        else:
+            out = [[]]
+            for k in kids:
+                out = [a + [l for l in b if l not in a] for a in out for b in k]
+                if len(out) > limit:
+                    raise AnalysisError('path condition too large to split into cases')
+        if len(out) > limit:
+            raise AnalysisError('path condition too large to split into cases')
+        return out
+    return go(f, True)
